@@ -37,6 +37,7 @@ CONSTANTS
   FillOK = %(fill)s
   Devs = {%(devs)s}
   Eager = %(eager)s
+  Endp = %(endp)s
   Remote = %(remote)s
   Gen = %(gen)s
 %(tail)s
@@ -56,17 +57,17 @@ def _names(prefix, n, quote):
 
 def cfg(msgs=2, ips=2, srcs=2, dsts=1, nall="0,1", nip="0,1", nsrc="0,1", ndst="0,1", mb="1",
         maxops=1, fill=False, devs=(), eager=False, gen=False, tail=MC_TAIL, strings=False,
-        probers=0, spec="Spec", remote=False):
+        probers=0, spec="Spec", remote=False, endp=False, rawkey=False):
     m = _names("m", msgs, strings)
     p = _names("q", probers, strings)
     if probers:
         m = m + ", " + p
     return CFG % dict(spec=spec, msgs=m, probers=p, ips=_names("i", ips, strings),
-                      srcs=_names("s", srcs, strings), dsts=_names("d", dsts, strings),
+                      srcs=_names("s", srcs, strings) + (', "raw"' if rawkey else ""), dsts=_names("d", dsts, strings),
                       nall=nall, nip=nip, nsrc=nsrc, ndst=ndst, mb=mb, maxops=maxops,
                       fill="TRUE" if fill else "FALSE",
                       devs=", ".join('"%s"' % d for d in devs),
-                      remote="TRUE" if remote else "FALSE", eager="TRUE" if eager else "FALSE", gen="TRUE" if gen else "FALSE", tail=tail)
+                      endp="TRUE" if endp else "FALSE", remote="TRUE" if remote else "FALSE", eager="TRUE" if eager else "FALSE", gen="TRUE" if gen else "FALSE", tail=tail)
 
 
 # exhaustive design configurations (deviations off): name -> (cfg text, workers)
@@ -82,6 +83,9 @@ def mc_configs(thorough):
         # remote deliveries as callers (End = Close, next-hop MAIL refusal)
         "mc-remote": (cfg(msgs=2, ips=1, srcs=1, dsts=2, nall="0,1", nip="0", nsrc="0,1", ndst="1,2",
                           remote=True), 2),
+        # SMTP sessions as callers (the pipeline may refuse the sender after TakeMsg)
+        "mc-endpoint": (cfg(msgs=2, ips=2, srcs=2, dsts=1, nall="0,1", nip="0,1", nsrc="0,1", ndst="0",
+                            endp=True), 2),
     }
     if thorough:
         c.update({
@@ -104,7 +108,7 @@ ASIS = {
                            ips=3, srcs=1),
     "ReapInUse": dict(devs=["ReapInUse"], nall="0", nip="1", nsrc="0", ndst="0", ips=3, srcs=1, maxops=2),
     "MailRejectNoRelease": dict(devs=["MailRejectNoRelease"], nall="0", nip="0", nsrc="0", ndst="1", remote=True),
-    "ReleaseOtherKey": dict(devs=["ReleaseOtherKey"], nall="0", nip="0", nsrc="1", ndst="0"),
+    "ReleaseOtherKey": dict(devs=["ReleaseOtherKey"], nall="0", nip="0", nsrc="1", ndst="0", endp=True),
 }
 
 
@@ -115,7 +119,8 @@ def load_findings():
     return [f for f in json.load(open(p)).get("findings", []) if f.get("property") == "C11"]
 
 
-LEVELS = {"api": ("api",), "remote": ("api", "remote")}
+LEVELS = {"api": ("api",), "remote": ("api", "remote"), "endpoint": ("api", "endpoint")}
+LEVEL_TEST = {"api": "TestReplay", "remote": "TestReplayRemote", "endpoint": "TestReplayEndpoint"}
 
 
 def open_devs(findings, level):
@@ -132,11 +137,11 @@ def open_devs(findings, level):
     return out
 
 
-def trace_cfg(odev, remote):
+def trace_cfg(odev, level):
     devs = sorted(set(odev) | set(w for f in odev.values() for w in f["match"].get("with", [])))
     return cfg(msgs=3, probers=3, ips=8, srcs=8, dsts=8, nall="0", nip="0", nsrc="0", ndst="0", mb="1",
                maxops=99, fill=True, devs=devs, eager=True, gen=False, tail=TRACE_TAIL, strings=True,
-               spec="TSpec", remote=remote)
+               spec="TSpec", remote=level == "remote", endp=level == "endpoint", rawkey=True)
 
 
 def classify(ctx, verdicts, by_t, by_id, odev, selftest, stats, level):
@@ -246,7 +251,8 @@ def run(ctx, replay):
         behs[0]["id"] = 1
         behs[0]["level"] = obj.get("level", behs[0].get("level", "api"))
     else:
-        n_real, n_small, n_fit, n_fill, n_rem = (2500, 700, 700, 200, 600) if thorough else (220, 60, 60, 40, 60)
+        n_real, n_small, n_fit, n_fill, n_rem, n_endp = (2500, 700, 700, 200, 600, 600) if thorough else \
+            (200, 50, 50, 30, 50, 50)
         gens = {
             # the real table capacity, three callers, all four scopes
             "gen-real": (cfg(msgs=3, ips=3, srcs=2, dsts=2, nall="0,1,2", nip="0,1,2", nsrc="0,1,2",
@@ -269,6 +275,10 @@ def run(ctx, replay):
             "gen-remote": (cfg(msgs=3, ips=2, srcs=2, dsts=2, nall="0,1", nip="0,1", nsrc="0,1,2",
                                ndst="1,2", mb=str(REAL_MB), maxops=2, eager=True, gen=True, remote=True,
                                tail=GEN_TAIL, strings=True), n_rem, 60),
+            # endpoint level: SMTP sessions (startDelivery / releaseLimits), the pipeline may refuse the sender
+            "gen-endpoint": (cfg(msgs=3, ips=2, srcs=2, dsts=1, nall="0,1,2", nip="0,1,2", nsrc="0,1,2",
+                                 ndst="0", mb=str(REAL_MB), maxops=2, eager=True, gen=True, endp=True,
+                                 tail=GEN_TAIL, strings=True), n_endp, 60),
         }
         gfut = {k: ex.submit(ctx.tlc, "Limits", None, name=k, workers=1, timeout=900,
                              simulate=max(40, n // 2), depth=d, cfg_text=t) for k, (t, n, d) in gens.items()}
@@ -277,7 +287,8 @@ def run(ctx, replay):
             mc_futs[name] = ex.submit(ctx.tlc, "LimitsMC", None, name=name, workers=w,
                                       timeout=3000 if thorough else 600, cfg_text=text)
         for name, kw in ASIS.items():
-            if not thorough and not (set(kw["devs"]) & set(open_devs(findings, "remote"))):
+            if not thorough and not (set(kw["devs"]) & (set(open_devs(findings, "remote")) |
+                                                         set(open_devs(findings, "endpoint")))):
                 continue      # quick: non-vacuity of the open deviations only
             asis_futs[name] = ex.submit(ctx.tlc, "Limits", None, name="asis-" + name, workers=2, timeout=600,
                                         cfg_text=cfg(tail=ASIS_TAIL, strings=True, **kw))
@@ -300,6 +311,14 @@ def run(ctx, replay):
                 pick += vlib.sample(ctx.rng, [b for b in got if not any(b is x for x in pick)], n - len(pick))
                 for b in pick:
                     b["level"] = "remote"
+            if k == "gen-endpoint":
+                for b in pick:
+                    b["level"] = "endpoint"
+                    b["defer"] = ctx.rng.random() < 0.5
+                    for st in b["hist"]:
+                        if st["a"] == "TakeMsg":
+                            st["raw"] = ctx.rng.random() < 0.3
+                            st["how"] = ctx.rng.choice(["reset", "logout", "data", "datafail"])
             ctx.cov.setdefault("generated", {})[k] = {"printed": len(got), "replayed": len(pick)}
             behs += pick
         if not behs:
@@ -342,23 +361,25 @@ def run(ctx, replay):
 
     stats = {"ok": 0, "drift": 0, "kf": {}, "preds": {}}
     if events:
-        verdicts, by_t = validate_parallel(ctx, events, trace_cfg(odev, False), 1 if replay else (6 if thorough else 4),
+        verdicts, by_t = validate_parallel(ctx, events, trace_cfg(odev, "api"), 1 if replay else (6 if thorough else 4),
                                            "tv")
         ctx.log("validated %d API-level traces" % len(verdicts))
         classify(ctx, verdicts, by_t, by_id, odev, selftest, stats, "api")
     else:
         by_t = {}
 
-    # ---- remote level: the callers are real remote deliveries ------------------------
-    rbehs = [b for b in allbehs if b.get("level") == "remote"]
-    if rbehs:
-        rdev = open_devs(findings, "remote")
-        revents = ctx.run_shards(binary, rbehs, test="TestReplayRemote", name="replay-remote")
-        ctx.log("remote level replayed: %d events" % len(revents))
-        rverd, rby_t = validate_parallel(ctx, revents, trace_cfg(rdev, True), 1 if replay else 2, "tvr")
-        classify(ctx, rverd, rby_t, {b["id"]: b for b in rbehs}, rdev, {}, stats, "remote")
-        by_t.update(rby_t)
-        ctx.cov["remote_level_traces"] = len(rverd)
+    # ---- remote / endpoint level: the callers are real remote deliveries / SMTP sessions ----
+    for level in ("remote", "endpoint"):
+        lbehs = [b for b in allbehs if b.get("level") == level]
+        if not lbehs:
+            continue
+        ldev = open_devs(findings, level)
+        levents = ctx.run_shards(binary, lbehs, test=LEVEL_TEST[level], name="replay-" + level)
+        ctx.log("%s level replayed: %d events" % (level, len(levents)))
+        lverd, lby_t = validate_parallel(ctx, levents, trace_cfg(ldev, level), 1 if replay else 2, "tv" + level[0])
+        classify(ctx, lverd, lby_t, {b["id"]: b for b in lbehs}, ldev, {}, stats, level)
+        by_t.update(lby_t)
+        ctx.cov[level + "_level_traces"] = len(lverd)
     ok, drift, kf_traces, preds = stats["ok"], stats["drift"], stats["kf"], stats["preds"]
 
     # ---- collect the exhaustive runs -------------------------------------------------
